@@ -7,6 +7,7 @@ import (
 	"go/token"
 	"go/types"
 	"strings"
+	"time"
 
 	"golang.org/x/tools/go/ssa"
 )
@@ -517,6 +518,8 @@ func callBody(fn *ssa.Function, args []value, free []value) value {
 
 type unwindFail struct{ msg string }
 
+var jobDeadline time.Time
+
 func run(fr *frame) value {
 	var prev *ssa.BasicBlock
 	b := fr.fn.Blocks[0]
@@ -526,6 +529,9 @@ func run(fr *frame) value {
 			rs.steps++
 			if rs.steps > cfg.MaxSteps {
 				panic(unwindFail{"step budget exceeded"})
+			}
+			if rs.steps&0xfffff == 0 && !jobDeadline.IsZero() && time.Now().After(jobDeadline) {
+				panic(unwindFail{"job time budget exhausted"})
 			}
 			rs.curInstr = in
 			switch x := in.(type) {
